@@ -275,7 +275,9 @@ def run(prop, tier):
             ctx.add(evaluations=1, transitions=sum(len(c) for c in j[0]), traces_validated_against_impl=1)
             if msg:
                 m_ = {"kind": "emu-offsets"}
-                if "clock gate" in msg and len(set(j[1])) == 1:
+                firsts = [c[0] for c in j[0] if c]
+                if "clock gate" in msg and len(set(j[1])) == 1 and j[2] is None and max(firsts) - min(firsts) > 3600 * 10 ** 9:
+                    # (only the documented one-hour gate between threads of one loom; a gate that fires on closer streams is not it)
                     m_["cause"] = "clock-gate-same-loom"
                 ctx.violation("ovniemu streams %r looms %r offsets %r%s: %s" % (j[0], j[1], j[2], " (first corrected clock 0)" if j[3] else "", msg),
                               {"engine": "E6 ovniemu", "streams": [list(c) for c in j[0]], "looms": list(j[1]), "offsets": j[2], "first_corrected_clock_zero": j[3]},
